@@ -55,6 +55,13 @@ TFile ==
        /\ Ev.r.kind = "Hash"
        /\ Ev.r.r = GenFinalize(fv, g, DefaultOptions)
     /\ UNCHANGED <<s, v>>
+\* hash_file on a file whose content the harness read itself (e.g. procfs: size 0 in metadata)
+TFileData ==
+    /\ IsEvent("file_data") /\ s.pc = "Idle"
+    /\ LET fv == VariantByName(Ev.v) IN
+       /\ Ev.r.kind = "Hash"
+       /\ Ev.r.r = GenFinalize(fv, GenUpdate(fv, GenNew(fv), Ev.data), DefaultOptions)
+    /\ UNCHANGED <<s, v>>
 TFileErr ==
     /\ IsEvent("file_err") /\ s.pc = "Idle"
     /\ Ev.r.kind = "IOError"
@@ -74,7 +81,7 @@ TExample ==
        IN Ev.line = PadTo(word, 72) \o <<32>> \o Ev.name
     /\ UNCHANGED <<s, v>>
 
-TraceNext == TBegin \/ TRead \/ TEnd \/ TFile \/ TFileErr \/ TExample
+TraceNext == TBegin \/ TRead \/ TEnd \/ TFile \/ TFileData \/ TFileErr \/ TExample
 TraceSpec == l = 1 /\ s = Idle /\ v = VNormal /\ [][TraceNext]_vars
 
 TraceAccepted ==
